@@ -788,8 +788,8 @@ package mast
 //@ func (*Cursor).Min
 //@ tags C01 C10 C12
 // only the cursor's own path array (or a fresh one) is written: a copy of the path taken before survives
-//@ ensures others [C12] (forall ((a Int) (i Int)) (! (=> (and (<= a W0) (not (= a (sl.arr (Cursor.path H0 c))))) (= (Arr.S_pathEntry.at H a i) (Arr.S_pathEntry.at H0 a i))) :pattern ((Arr.S_pathEntry.at H a i))))
-//@ loop 1 invariant others [C12] (and (or (= (sl.arr (Cursor.path H c)) (sl.arr (Cursor.path H0 c))) (> (sl.arr (Cursor.path H c)) W0)) (forall ((a Int) (i Int)) (! (=> (and (<= a W0) (not (= a (sl.arr (Cursor.path H0 c))))) (= (Arr.S_pathEntry.at H a i) (Arr.S_pathEntry.at H0 a i))) :pattern ((Arr.S_pathEntry.at H a i)))))
+//@ ensures others [C10 C12] (forall ((a Int) (i Int)) (! (=> (and (<= a W0) (not (= a (sl.arr (Cursor.path H0 c))))) (= (Arr.S_pathEntry.at H a i) (Arr.S_pathEntry.at H0 a i))) :pattern ((Arr.S_pathEntry.at H a i))))
+//@ loop 1 invariant others [C10 C12] (and (or (= (sl.arr (Cursor.path H c)) (sl.arr (Cursor.path H0 c))) (> (sl.arr (Cursor.path H c)) W0)) (forall ((a Int) (i Int)) (! (=> (and (<= a W0) (not (= a (sl.arr (Cursor.path H0 c))))) (= (Arr.S_pathEntry.at H a i) (Arr.S_pathEntry.at H0 a i))) :pattern ((Arr.S_pathEntry.at H a i)))))
 //@ modifies W G.loads Cursor.path Arr.S_pathEntry Arr.Any@fresh Node.*@fresh mastNode.*@fresh Box.Bytes@fresh
 //@ requires ok [C10] (CursorOK H c)
 //@ requires closure [T3] (AllOK H)
@@ -801,8 +801,8 @@ package mast
 //@ func (*Cursor).Max
 //@ tags C01 C10 C12
 // only the cursor's own path array (or a fresh one) is written: a copy of the path taken before survives
-//@ ensures others [C12] (forall ((a Int) (i Int)) (! (=> (and (<= a W0) (not (= a (sl.arr (Cursor.path H0 c))))) (= (Arr.S_pathEntry.at H a i) (Arr.S_pathEntry.at H0 a i))) :pattern ((Arr.S_pathEntry.at H a i))))
-//@ loop 1 invariant others [C12] (and (or (= (sl.arr (Cursor.path H c)) (sl.arr (Cursor.path H0 c))) (> (sl.arr (Cursor.path H c)) W0)) (forall ((a Int) (i Int)) (! (=> (and (<= a W0) (not (= a (sl.arr (Cursor.path H0 c))))) (= (Arr.S_pathEntry.at H a i) (Arr.S_pathEntry.at H0 a i))) :pattern ((Arr.S_pathEntry.at H a i)))))
+//@ ensures others [C10 C12] (forall ((a Int) (i Int)) (! (=> (and (<= a W0) (not (= a (sl.arr (Cursor.path H0 c))))) (= (Arr.S_pathEntry.at H a i) (Arr.S_pathEntry.at H0 a i))) :pattern ((Arr.S_pathEntry.at H a i))))
+//@ loop 1 invariant others [C10 C12] (and (or (= (sl.arr (Cursor.path H c)) (sl.arr (Cursor.path H0 c))) (> (sl.arr (Cursor.path H c)) W0)) (forall ((a Int) (i Int)) (! (=> (and (<= a W0) (not (= a (sl.arr (Cursor.path H0 c))))) (= (Arr.S_pathEntry.at H a i) (Arr.S_pathEntry.at H0 a i))) :pattern ((Arr.S_pathEntry.at H a i)))))
 //@ modifies W G.loads Cursor.path Arr.S_pathEntry Arr.Any@fresh Node.*@fresh mastNode.*@fresh Box.Bytes@fresh
 //@ requires ok [C10] (CursorOK H c)
 //@ requires closure [T3] (AllOK H)
@@ -814,7 +814,7 @@ package mast
 //@ func (*Cursor).Forward
 //@ tags C01 C10 C12
 // a step that fails leaves the cursor where it was (same path entries): retrying it continues the walk
-//@ ensures atomic [C12] (=> (isErr err) (CursorSame H0 H c))
+//@ ensures atomic [C10 C12] (=> (isErr err) (CursorSame H0 H c))
 //@ modifies W G.loads Cursor.path Arr.S_pathEntry Arr.Any@fresh Node.*@fresh mastNode.*@fresh Box.Bytes@fresh
 //@ requires ok [C10] (CursorOK H c)
 //@ requires closure [T3] (AllOK H)
@@ -825,7 +825,7 @@ package mast
 //@ func (*Cursor).Backward
 //@ tags C01 C10 C12
 // a step that fails leaves the cursor where it was (same path entries): retrying it continues the walk
-//@ ensures atomic [C12] (=> (isErr err) (CursorSame H0 H c))
+//@ ensures atomic [C10 C12] (=> (isErr err) (CursorSame H0 H c))
 //@ modifies W G.loads Cursor.path Arr.S_pathEntry Arr.Any@fresh Node.*@fresh mastNode.*@fresh Box.Bytes@fresh
 //@ requires ok [C10] (CursorOK H c)
 //@ requires closure [T3] (AllOK H)
@@ -1063,7 +1063,8 @@ package mast
 //@ ensures readonly [C07 C12] (NodesSame H0 H W0)
 
 //@ func (*Mast).StartDiff
-//@ tags C06 C12
+//@ tags C06 C12 C15
+//@ ensures noloads [C15] (= (G.loads H) (G.loads H0))
 //@ modifies W Map.Int.Any Map.Int.Any.has Arr.S_iterItem@fresh diffState.*@fresh iterItemStack.*@fresh DiffCursor.*@fresh
 //@ requires nn (> m 0)
 //@ ensures res [C06] (and (= err anil) (> result0 W0) (not (DiffCursor.done H result0)) (= (DiffCursor.m H result0) m) (> (DiffCursor.diffState H result0) W0))
